@@ -22,6 +22,8 @@ MANIFEST = dict(
                   kind_free_text="two-phase differential: real lexer+parser+DocumentSymbolGeneratorFromAst vs extracted Coq outline model on the dumped tree")],
 )
 
+MANIFEST["text"] += ' Fourth session: C12_outline_of_text composes the lexer round trip, the file theorem and the outline characterisation on one object: for every printed file of the grammar the outline is the entries of its declarations in order under at most one container.'
+
 ASSUMPTIONS = [
     "ProjectManager::generate_document_symbols passes the document's `ast` (the root returned by parse_gold on the lexed file content) unchanged to DocumentSymbolGeneratorFromAst::generate_symbols (read by inspection of manager/mod.rs and document_service.rs); the engine calls lex + parse_gold + generate_symbols directly",
     "the tree dump (harness/src/treedump.rs) reports get_children_ref, get_identifier, get_range and the token fields faithfully; non-Option struct fields (identifier, value_token, type_node, return_type) are always present in a dumped tree - for other `node` values the model uses the empty string / range 0",
